@@ -254,6 +254,10 @@ func TestC06Literal(t *testing.T) {
 			settle(t, msg, "C06 violated: "+desc)
 		}
 
+		// The value is the caller's: what it does to it must not show in any
+		// later result (the process goes through many thousands of literals).
+		scribbleValue(v)
+
 		r.Case(desc, nearBoundary(attr, l) || illTyped(attr, l) || !l.Canonical, append(labels, "accepted")...)
 	}))
 }
@@ -612,6 +616,8 @@ func TestC06Payload(t *testing.T) {
 		if msg := remarshalOracle(pc, ss, res); msg != "" {
 			t.Fatalf("C06 violated: %s\ncase: %s", msg, pc)
 		}
+
+		scribble(pc.TS, res)
 
 		r.Case(pc.String(), nontrivial, append(labels, "accepted")...)
 	}))
